@@ -239,7 +239,35 @@ type flowEv struct {
 	name string // ref: name of the unexported function / method referred to
 	top  int    // index of the top-level statement (yield points skipped)
 	inGo bool   // inside a `go` statement: runs without whatever the function holds
+	exit bool   // unlock inside a branch that ends with return / panic: does not reach the code after it
 	pos  token.Pos
+}
+
+// terminates: a block or case clause whose last statement is a return or a call of panic.
+func terminates(n ast.Node) bool {
+	var l []ast.Stmt
+	switch v := n.(type) {
+	case *ast.BlockStmt:
+		l = v.List
+	case *ast.CaseClause:
+		l = v.Body
+	default:
+		return false
+	}
+	if len(l) == 0 {
+		return false
+	}
+	switch v := l[len(l)-1].(type) {
+	case *ast.ReturnStmt:
+		return true
+	case *ast.ExprStmt:
+		if c, ok := v.X.(*ast.CallExpr); ok {
+			if id, ok := c.Fun.(*ast.Ident); ok && id.Name == "panic" {
+				return true
+			}
+		}
+	}
+	return false
 }
 
 func isYield(st ast.Stmt) bool {
@@ -281,11 +309,27 @@ func (p *lockPkg) flow(fd *ast.FuncDecl) []flowEv {
 		top++
 		topLevelStmt := st
 		var walk func(n ast.Node, inGo, deferred bool)
+		exitDepth := 0
 		walk = func(n ast.Node, inGo, deferred bool) {
-			ast.Inspect(n, func(x ast.Node) bool {
-				switch v := x.(type) {
-				case nil:
+			var stack []bool
+			ast.Inspect(n, func(x ast.Node) (descend bool) {
+				if x == nil {
+					if stack[len(stack)-1] {
+						exitDepth--
+					}
+					stack = stack[:len(stack)-1]
 					return false
+				}
+				defer func() {
+					if descend {
+						t := terminates(x)
+						if t {
+							exitDepth++
+						}
+						stack = append(stack, t)
+					}
+				}()
+				switch v := x.(type) {
 				case *ast.GoStmt:
 					walk(v.Call, true, false)
 					return false
@@ -336,7 +380,7 @@ func (p *lockPkg) flow(fd *ast.FuncDecl) []flowEv {
 							// inside a deferred function literal: runs when the function returns
 							k = "defer-unlock"
 						}
-						evs = append(evs, flowEv{kind: k, top: top, inGo: inGo, pos: v.Pos()})
+						evs = append(evs, flowEv{kind: k, top: top, inGo: inGo, exit: exitDepth > 0, pos: v.Pos()})
 						return false
 					}
 				case *ast.SelectorExpr:
@@ -396,7 +440,7 @@ func heldAt(evs []flowEv) []bool {
 		case "lock":
 			held = true
 		case "unlock":
-			if !e.inGo {
+			if !e.inGo && !e.exit {
 				held = false
 			}
 		}
@@ -598,8 +642,17 @@ func (p *lockPkg) guardedBody(fd *ast.FuncDecl, needLock bool) bool {
 	if iG < 0 || iW < 0 {
 		return false
 	}
-	if needLock && !(iL >= 0 && iD > iL && iD < iG && (iU < 0 || iU > iW)) {
-		return false
+	if needLock {
+		if !(iL >= 0 && iL < iG && (iD < 0 || (iD > iL && iD < iG)) && (iU < 0 || iU > iW)) {
+			return false
+		}
+		evs := p.flow(fd)
+		held := heldAt(evs)
+		for i, e := range evs {
+			if (e.kind == "write" || e.kind == "probe") && !held[i] {
+				return false
+			}
+		}
 	}
 	if iW <= iG {
 		return false
